@@ -296,3 +296,21 @@ class UThenInt:
     u: Optional[Union[SLeaf, SOther]] = field(default=None, metadata={"type": "Element"})
     n: Optional[int] = field(default=None, metadata={"type": "Element"})
     a: Optional[int] = field(default=None, metadata={"type": "Attribute"})
+
+
+class QCode(_Enum):
+    SENDER = _QName("urn:codes", "Sender")
+    LOCAL = _QName("Receiver")
+    OTHER = _QName("urn:other", "x-1")
+
+
+@dataclass
+class QFault:
+    class Meta:
+        name = "Fault"
+        namespace = "urn:codes"
+
+    code: Optional[QCode] = field(default=None, metadata={"type": "Element"})
+    sub: List[QCode] = field(default_factory=list, metadata={"type": "Element"})
+    toks: List[QCode] = field(default_factory=list, metadata={"type": "Element", "tokens": True})
+    kind: Optional[QCode] = field(default=None, metadata={"type": "Attribute"})
